@@ -929,8 +929,10 @@ class Curve(SplineGeometry):
     def reverse(self):
         """ Reverses the curve """
         self._control_points = list(reversed(self._control_points))
+        # Mirror the knots inside their own range: k -> first + last - k (the range is kept, also when it is not [0, 1])
+        min_k = self.knotvector[0]
         max_k = self.knotvector[-1]
-        new_kv = [max_k - k for k in self.knotvector]
+        new_kv = [min_k + max_k - k for k in self.knotvector]
         self._knot_vector[0] = list(reversed(new_kv))
         self.reset(evalpts=True)
 
